@@ -131,7 +131,14 @@ func expectFor(e ctxExpect, shape, tok string, ipLast int) ctxObs {
 	o.Route = "-"
 	o.Path = map[string]string{"direct": "/p/", "tsr": "/i/", "redirect": "/r/", "noroute": "/nope/", "nomethod": "/p/", "options": "/p/",
 		"lookup": "/p/", "lookupclone": "/p/", "clonewith": "/p/", "clone": "/p/",
-		"tsrclone": "/ic/", "hostdirect": "/hd/", "hosttsr": "/hi/", "statichost": "/hs/", "hijack": "/hj/", "txnlookup": "/p/"}[shape] + tok
+		"tsrclone": "/ic/", "hostdirect": "/hd/", "hosttsr": "/hi/", "statichost": "/hs/", "hijack": "/hj/", "txnlookup": "/p/",
+		"tsrclonewith": "/iw/", "tsrlookup": "/i/", "wrapclone": "/wc/", "directcopy": "/p/", "noroutecopy": "/nope/"}[shape] + tok
+	switch shape { // routes without a parameter: the path carries no token
+	case "staticdirect":
+		o.Path = "/sd"
+	case "statictsr":
+		o.Path = "/st"
+	}
 	if e.Route == "pattern" {
 		o.Route = "/p/{x}"
 		switch shape {
@@ -147,6 +154,16 @@ func expectFor(e ctxExpect, shape, tok string, ipLast int) ctxObs {
 			o.Route = "static.example/hs/{x}"
 		case "hijack":
 			o.Route = "/hj/{x}"
+		case "staticdirect":
+			o.Route = "/sd"
+		case "statictsr":
+			o.Route = "/st/"
+		case "tsrclonewith":
+			o.Route = "/iw/{x}/"
+		case "tsrlookup":
+			o.Route = "/i/{x}/"
+		case "wrapclone":
+			o.Route = "/wc/{x}"
 		}
 	}
 	return o
@@ -166,6 +183,9 @@ func (w *hijackableWriter) Hijack() (net.Conn, *bufio.ReadWriter, error) {
 	b.Close()
 	return a, bufio.NewReadWriter(bufio.NewReader(a), bufio.NewWriter(a)), nil
 }
+
+// wrappedWriter is a ResponseWriter of the caller's own type around the context's writer.
+type wrappedWriter struct{ fox.ResponseWriter }
 
 type keptClone struct {
 	c      fox.Context
@@ -246,6 +266,18 @@ func (cr *ctxReplayer) runSeq(v ctxVec, run string) {
 		dirty(c, cur)
 	}
 	rt, err := fox.New(fox.WithNoRouteHandler(special), fox.WithNoMethodHandler(special), fox.WithOptionsHandler(special),
+		// in front of everything: on demand, the rest of the chain works on a CloneWith copy of the context
+		fox.WithMiddleware(func(next fox.HandlerFunc) fox.HandlerFunc {
+			return func(c fox.Context) {
+				if c.Header("X-Copy") == "" {
+					next(c)
+					return
+				}
+				cp := c.CloneWith(c.Writer(), c.Request())
+				defer cp.Close()
+				next(cp)
+			}
+		}),
 		fox.WithMiddlewareFor(fox.RedirectHandler, func(next fox.HandlerFunc) fox.HandlerFunc {
 			return func(c fox.Context) {
 				o := observeCtx(c)
@@ -274,6 +306,36 @@ func (cr *ctxReplayer) runSeq(v ctxVec, run string) {
 		} else {
 			obsNow = &ctxObs{Err: fmt.Sprint("Hijack failed over a writer that supports it: ", err)}
 		}
+	})
+	rt.MustHandle("GET", "/sd", h)
+	rt.MustHandle("GET", "/st/", h, fox.WithIgnoreTrailingSlash(true))
+	rt.MustHandle("GET", "/iw/{x}/", hCloneWith, fox.WithIgnoreTrailingSlash(true))
+	// a manual Lookup that matches only through a trailing slash: the context is bound to the route all the same
+	rt.MustHandle("GET", "/tsl/{y}", func(c fox.Context) {
+		inner, _ := newRequest("GET", cur+".example", "/i/"+cur, "q="+cur)
+		inner.Header.Set("X-Req", cur)
+		inner.RemoteAddr = c.Request().RemoteAddr
+		rte, cc, tsr := c.Fox().Lookup(c.Writer(), inner)
+		if rte == nil || cc == nil || !tsr {
+			obsNow = &ctxObs{Err: fmt.Sprintf("Lookup through a trailing slash: route found %v, tsr %v", rte != nil, tsr)}
+			return
+		}
+		o := observeCtx(cc)
+		obsNow = &o
+		cc.Close()
+		dirty(c, cur)
+	})
+	// CloneWith around a writer of the caller's own type, then Clone of that copy before anything is written
+	rt.MustHandle("GET", "/wc/{x}", func(c fox.Context) {
+		cp := c.CloneWith(wrappedWriter{c.Writer()}, c.Request())
+		o := observeCtx(cp)
+		obsNow = &o
+		c.Writer().Header().Set("X-Resp", cur)
+		cl := cp.Clone()
+		co := observeCtx(cl)
+		cloneNow, cloneObs = cl, &co
+		cp.Close()
+		dirty(c, cur)
 	})
 	// the handler routes its own request by hand through a read-only transaction
 	rt.MustHandle("GET", "/tl/{y}", func(c fox.Context) {
@@ -367,6 +429,20 @@ func (cr *ctxReplayer) runSeq(v ctxVec, run string) {
 			path = "/hj/" + cur
 		case "txnlookup":
 			path = "/tl/" + cur
+		case "staticdirect":
+			path = "/sd"
+		case "statictsr":
+			path = "/st"
+		case "tsrclonewith":
+			path = "/iw/" + cur
+		case "tsrlookup":
+			path = "/tsl/" + cur
+		case "wrapclone":
+			path = "/wc/" + cur
+		case "directcopy":
+			path = "/p/" + cur
+		case "noroutecopy":
+			path = "/nope/" + cur
 		}
 		host := cur + ".example"
 		if st.Shape == "statichost" {
@@ -374,6 +450,9 @@ func (cr *ctxReplayer) runSeq(v ctxVec, run string) {
 		}
 		req, _ := newRequest(method, host, path, "q="+cur)
 		req.Header.Set("X-Req", cur)
+		if st.Shape == "directcopy" || st.Shape == "noroutecopy" {
+			req.Header.Set("X-Copy", "1")
+		}
 		req.RemoteAddr = fmt.Sprintf("192.0.2.%d:4000", 10+i)
 		obsNow, cloneNow, cloneObs = nil, nil, nil
 		if st.Shape == "hijack" {
@@ -425,7 +504,7 @@ func (cr *ctxReplayer) runSeq(v ctxVec, run string) {
 }
 
 func checkC12(r *Run) {
-	maxLen := pick(r, 3, 4)
+	maxLen := 3 // 23 shapes x with / without a tree replacement: about 100 000 sequences; length 4 would be 4.5 million
 	gen := fmt.Sprintf("---- MODULE Gen_Context ----\nGenMaxLen == %d\n====\n", maxLen)
 	model := r.runTLC(tlcOpts{Module: "MC_ContextModel", Gen: map[string]string{"Gen_Context.tla": gen}, Timeout: 5 * time.Minute})
 	model.mustClean("MC_ContextModel")
